@@ -32,7 +32,7 @@ ASSUMPTIONS = [
     "observation reads values through public behaviour (str(), int(), attributes) of the field types",
 ]
 SHARDS = {"quick": 8, "thorough": 16}
-BUDGET_S = {"quick": 150, "thorough": 1200}
+BUDGET_S = {"quick": 150, "thorough": 2400}
 
 VIAS = ("stream", "path", "path.gz", "fileobj")
 ANCHORS = [
@@ -62,7 +62,7 @@ def teardown(ctx):
 def generate(ctx):
     cells = gen.all_cells()
     idx = 0
-    reps = ctx.scale(3, 8)
+    reps = ctx.scale(3, 16)
     for rep in range(reps):
         for t, vc in cells:
             if vc == "extreme" and rep > 0:
@@ -71,23 +71,23 @@ def generate(ctx):
             if ctx.mine(idx):
                 yield {"k": "cell", "t": t, "vc": vc, "via": via, "s": subseed("c01", ctx.seed, "cell", t, vc, rep)}
             idx += 1
-    nmix = ctx.scale(150, 1500)
+    nmix = ctx.scale(150, 3500)
     for i in range(nmix):
         yield {"k": "mix", "via": VIAS[i % len(VIAS)], "s": subseed("c01", ctx.seed, "mix", ctx.shard, i)}
     # identifier-coincident types interleaved in one stream; frames above 1 MiB through every access path
-    for i in range(ctx.scale(16, 120)):
+    for i in range(ctx.scale(16, 400)):
         yield {"k": "coincident", "via": VIAS[i % len(VIAS)], "s": subseed("c01", ctx.seed, "co", ctx.shard, i)}
     if ctx.shard < len(VIAS):
         yield {"k": "bigframe", "via": VIAS[ctx.shard], "s": subseed("c01", ctx.seed, "big", ctx.shard)}
     # the same record objects are written again after being updated in place (list methods, digest / command attributes,
     # fields of nested records): every write must emit the record's state at that moment
-    for i in range(ctx.scale(40, 400)):
+    for i in range(ctx.scale(40, 1200)):
         yield {"k": "rewrite", "via": VIAS[i % len(VIAS)], "s": subseed("c01", ctx.seed, "rewrite", ctx.shard, i)}
     # text holding lone surrogates outside the byte-escape range: a record is either refused by the packer or round-trips
-    for i in range(ctx.scale(24, 240)):
+    for i in range(ctx.scale(24, 720)):
         yield {"k": "surrogate", "via": VIAS[i % len(VIAS)], "s": subseed("c01", ctx.seed, "surrogate", ctx.shard, i)}
     # unrelated configuration must not leak into the stream: comparison ignore-lists active while writing / reading
-    for i in range(ctx.scale(24, 200)):
+    for i in range(ctx.scale(24, 600)):
         yield {"k": "cfg", "via": VIAS[i % len(VIAS)], "ignore": [["_generated"], ["_source", "_version"], ["<first>"], ["<all>"]][i % 4],
                "s": subseed("c01", ctx.seed, "cfg", ctx.shard, i)}
 
